@@ -231,6 +231,7 @@ impl<'a> ExprGen<'a> {
             4..=5 => json!({"k": "any"}),
             6..=7 => json!({"k": "type", "ty": "node"}),
             8 => json!({"k": "type", "ty": "text"}),
+            9 if self.rng.gen_bool(0.3) => json!({"k": "pilit", "target": cp(self.pick(&["p", "x"]))}),
             _ => {
                 let t = self.pick(&["comment", "pi", "text", "node"]);
                 json!({"k": "type", "ty": t})
